@@ -13,7 +13,9 @@ def main():
     checks = None
     if '--checks' in args:
         i = args.index('--checks'); checks = args[i + 1].split(','); del args[i:i + 2]
-    names = args or sorted(os.listdir(SEEDED))
+    own_only = '--own' in args
+    if own_only: args.remove('--own')
+    names = args or sorted(n for n in os.listdir(SEEDED) if os.path.exists(os.path.join(SEEDED, n, 'patch.diff')))
     assert sh(['git', 'status', '--porcelain'], cwd='/repo').stdout.strip() == '', '/repo not clean'
     results = {}
     for n in names:
@@ -25,7 +27,7 @@ def main():
             print(n, 'DOES-NOT-APPLY'); continue
         try:
             prop = n.split('-')[0]
-            todo = checks or ([prop] + [c for c in ALL if c != prop])
+            todo = checks or ([prop] if own_only else [prop] + [c for c in ALL if c != prop])
             alarms, own = [], None
             t0 = time.time()
             for c in todo:
@@ -40,7 +42,13 @@ def main():
         finally:
             sh(['git', 'checkout', '--', '.'], cwd='/repo')
             sh(['git', 'clean', '-fdq', 'src', 'js'], cwd='/repo')
-    json.dump(results, open('/verif/seeded/RESULTS.json', 'w'), indent=1)
+    old = {}
+    try: old = json.load(open('/verif/seeded/RESULTS.json'))
+    except Exception: pass
+    for k, v in results.items():
+        if own_only and k in old and len(old[k].get('alarms', [])) > len(v.get('alarms', [])) and v.get('own_property_alarm'): continue
+        old[k] = v
+    json.dump(old, open('/verif/seeded/RESULTS.json', 'w'), indent=1)
     # leave the framework built for the unchanged tree again
     sh(['/verif/bin/check', 'C15', '--tier', 'quick'], cwd='/verif')
 
